@@ -6,7 +6,7 @@
       decimal_pattern   (?P<decimal>[0-9]+(\.[0-9]STAR)?)
       free_text_pattern \\(?P<escaped_char>.)|(?P<char>[^0-9\{\}])          (no DOTALL: "." is anything but "\n")
       any_part_pattern  (?: fraction | decimal | free_text )
-      pattern           \{(?P<source> any_part STAR )\}
+      pattern           \{(?P<source>(?:[^\{\}\\]|\\.|\\(?=\n))STAR\\?)\}     (linear-time; see [scan_aux])
     (STAR stands for the Kleene star, which cannot be written next to a parenthesis in a comment.)
 
     - [brace_parse source] is the constructor: [any_part_pattern.finditer(source)], each match
@@ -23,12 +23,8 @@
     deterministic scan [match_fraction] (every run is taken whole; the denominator run must
     contain a non-zero digit because "0STAR" gives back zeros only to "[1-9]", which rejects them).
 
-    For [pattern]: every part consumes characters outside "{", "}"; the only choice that
-    changes WHERE later parts start is "\\X" as one escaped character (tried first) or "\\"
-    as a plain character.  Whether the rest of the text can still be closed does not depend
-    on how the digits before were grouped, so the engine's first successful path ends at the
-    same "}" as the simple depth-first search [brace_scan] (checked against [re] by suite
-    [brace]).
+    [brace_scan] is the deterministic reading of [pattern] explained at [scan_aux] (checked
+    against [re] by suite [scan], which also checks that long unclosed braces are rejected quickly).
 
     Partial Python operations: [int(s)] of more than 4300 digits raises ValueError
     ([BValueError]); [int(float(s))] of a value that rounds to infinity raises OverflowError
@@ -217,8 +213,16 @@ Definition brace_parse (source : str) : bres svs :=
 Definition opt_add (k : nat) (o : option nat) : option nat :=
   match o with Some n => Some (k + n)%nat | None => None end.
 
-(** [(r x, r (tl x))] where [r x] = length of [source] when [any_part STAR \}] matches at the
-    head of [x] (the text just after "{"). *)
+(** [(r x, r (tl x))] where [r x] = length of [source] when the rest of [pattern] (the
+    repetition, the optional backslash and the closing brace) matches at the head of [x] (the
+    text just after the opening brace).
+
+    [pattern] is  \{(?P<source>(?:[^\{\}\\]|\\.|\\(?=\n))STAR\\?)\}  : the three alternatives of
+    the repetition start with different characters / look-aheads (a character other than brace
+    or backslash; backslash + a character other than line feed; backslash before a line feed),
+    so the units of a text are determined; backtracking can only give units back from the end,
+    and after giving units back the only way to finish is "backslash, closing brace", i.e. re-reading
+    a unit that is an escaped closing brace. *)
 Fixpoint scan_aux (x : str) : option nat * option nat :=
   match x with
   | [] => (None, None)
@@ -230,10 +234,10 @@ Fixpoint scan_aux (x : str) : option nat * option nat :=
         else if c =? c_bslash then
           match x' with
           | e :: _ =>
-              if e =? c_nl then opt_add 1 r1
+              if e =? c_nl then opt_add 1 r1          (* backslash before a line feed: one unit *)
               else match r2 with
-                   | Some n => Some (2 + n)%nat       (* escaped pair first *)
-                   | None => opt_add 1 r1             (* then the backslash alone *)
+                   | Some n => Some (2 + n)%nat       (* the escaped pair is a unit *)
+                   | None => if e =? c_rbrace then Some 1%nat else None   (* backslash, closing brace *)
                    end
           | [] => None
           end
@@ -325,10 +329,9 @@ Module BracePin.
     {| rx_flags := flags; rx_tree := any_part_tree 1;
        rx_groups := [("integer"%string, 2); ("numerator"%string, 3); ("denominator"%string, 4);
                      ("decimal"%string, 5); ("escaped_char"%string, 7); ("char"%string, 8)] |}.
-  Definition pattern : regex :=
-    {| rx_flags := flags;
-       rx_tree := [Lit 123; Group (Some 1) [Repeat true 0 None (any_part_tree 2)]; Lit 125];
-       rx_groups := [("source"%string, 1); ("integer"%string, 3); ("numerator"%string, 4);
-                     ("denominator"%string, 5); ("decimal"%string, 6); ("escaped_char"%string, 8);
-                     ("char"%string, 9)] |}.
+  (** [pattern.pattern] (the Python source text of the expression; it uses a look-ahead, which
+      Model/RegexAst.v cannot express) and its flags ([re.UNICODE] = 32). *)
+  Definition pattern_src : str :=
+    s "\{(?P<source>(?:[^\{\}\\]|\\.|\\(?=\n))*\\?)\}".
+  Definition pattern_flags : N := 32.
 End BracePin.
